@@ -134,13 +134,17 @@ func CommentState(l *lexer) stateFn {
 		}
 	} else {
 		//start with /*
+		l.next()
+		l.next()
+	Loop:
 		for {
 			r := l.next()
-			if r == '*' {
+			// a run of '*' may precede the closing '/', e.g. /**/ or /** doc **/
+			for r == '*' {
 				r = l.next()
 				if r == '/' {
 					l.ignore()
-					break
+					break Loop
 				}
 			}
 			if r == eof {
